@@ -26,12 +26,26 @@ def lock_class(e):
     return "other"
 
 
+GUARDED_TYPES = (("store::StoreItem<", "shard"), ("ttl::Bucket<", "buckets"), ("policy::PolicyInner<", "policy"), ("std::vec::Vec<u64>", "ring"))
+
+
+def lock_class_of(body, t):
+    """Lock class of a lock call: by the type of the data the guard protects (so that `shard.write()` on a closure
+    parameter or a renamed field is the same class as `self.shards[i].write()`), else by the receiver expression."""
+    ty = t.get("destty") or ""
+    if "Guard<" in ty:
+        for pat, cls in GUARDED_TYPES:
+            if pat in ty:
+                return cls
+    return lock_class(body.call_args(t)[0])
+
+
 def lock_sites(body):
     out = []
     for bi, t in body.calls():
         c = body.callee_of(t)
         if any(callee_matches(c, n) for n in LOCK_FNS):
-            out.append((bi, t, lock_class(body.call_args(t)[0])))
+            out.append((bi, t, lock_class_of(body, t)))
     return out
 
 
@@ -194,7 +208,7 @@ def check_lock_order(rep, fl, rule="R20.4"):
                 d = b.decl_callee_of(tt)
                 # nested acquisition: direct
                 if any(callee_matches(c, n) for n in LOCK_FNS):
-                    edges.setdefault((cls, lock_class(b.call_args(tt)[0])), []).append((b, tt))
+                    edges.setdefault((cls, lock_class_of(b, tt)), []).append((b, tt))
                 # via crate-local callee / closures passed to the call
                 callees = []
                 if tt.get("rlocal") or tt.get("local"):
